@@ -28,6 +28,9 @@ temporary file is `Model/Path.withExtTmp` of it (C20's model of `Path::with_exte
 After the schedule the books are read (`n`, `b`), then `contains` of every key (`c`), then the
 directory listing sorted by name (`fs`), then `get` of every key in order, alone (`g`), then the
 books again (`n2`, `b2`).  answers additionally: err.
+
+  dstress …  -> oracle-only     (free-running DynamicContainer stress round of the harness: no
+                                 model, the line only keeps request and answer streams aligned)
 -/
 import Driver.Common
 import Cascette.Model.MemConc
@@ -223,6 +226,7 @@ end DiskDrv
 
 def handle (toks : List String) : String :=
   match toks with
+  | "dstress" :: _ => "oracle-only"
   | ["drun", keys, pre, ts, sc] =>
     match kv "keys=" keys, kv "pre=" pre, kv "t=" ts, kv "s=" sc with
     | some keys, some pre, some ts, some sc => DiskDrv.handle keys pre ts sc
